@@ -356,20 +356,22 @@ theorem strip_length_le (s : Bytes) : (strip s).length ≤ s.length := by
 
 /-! ## 3. the read side of `_handle_ready_device` and `_process_expect` -/
 
+/-- POLLOUT while CONNECTING: `assert(dev->finish_connect != NULL)`, `tcp_finish_connect`, and what `_handle_ready_device`
+    makes of its outcome -/
+def finishTail (c : CS) : CS × Bool × Bool :=
+  if c.dev.conn == 0 then (c, true, true)
+  else if c.dev.conn == 2 then ({ c with dev := enqueueLogin c.dev }, false, true)
+  else (c, false, true)
+def readyFinish (c : CS) : CS × Bool × Bool :=
+  if c.dev.isPipe then ({ c with sys := c.sys ++ [.abort "assert finish_connect != NULL"], aborted := true }, false, true) else
+  finishTail (if (finishConnectOne c).2 then (finishConnectOne c).1 else finishConnectFail (finishConnectOne c).1)
+
 /-- `_handle_ready_device` from "ready for writing" to just before "ready for reading": the state, ioerr, and
     whether the read bit is skipped -/
 def readyWrite (c : CS) : CS × Bool × Bool :=
   let f := c.env.revents
   if f &&& 2 != 0 then
-    if c.dev.conn == 1 then
-      let (c, ok) := finishConnectOne c
-      let c := if ok then c else
-        match c.dev.fd with
-        | some fd => { c with sys := c.sys ++ [.close fd], dev := { c.dev with fd := none, curAddr := false, conn := 0 } }
-        | none => { c with dev := { c.dev with curAddr := false, conn := 0 } }
-      if c.dev.conn == 0 then (c, true, true)
-      else if c.dev.conn == 2 then ({ c with dev := enqueueLogin c.dev }, false, true)
-      else (c, false, true)
+    if c.dev.conn == 1 then readyFinish c
     else
       if c.dev.toBuf.isEmpty then (c, true, false)
       else if c.env.writeOk then
@@ -509,19 +511,84 @@ theorem finishConnectOne_env (c : CS) :
   · split <;> exact ⟨rfl, rfl, rfl⟩
   · exact ⟨rfl, rfl, rfl⟩
 
+theorem finishConnectOne_tel (c : CS) :
+    ((finishConnectOne c).2 = false ∧ TelSame c.dev (finishConnectOne c).1.dev ∧ (finishConnectOne c).1.dev.conn = c.dev.conn) ∨
+    ((finishConnectOne c).2 = true ∧ TelUp c.dev (finishConnectOne c).1.dev) := by
+  rcases finishConnectOne_cases c with ⟨h1, h2⟩ | ⟨h1, h2⟩
+  · right; rw [h2]; exact ⟨h1, rfl, rfl, rfl, rfl⟩
+  · left; rw [h2]; exact ⟨h1, ⟨rfl, rfl, rfl⟩, rfl⟩
+
+/-- **POLLOUT while CONNECTING**, every case: the read bit is skipped; neither buffer, nor the transport kind, nor the size of
+    the input buffer is touched; nothing is read or written; and either a connection is up (CONNECTED, decoder at rest, one
+    more connect counted: on the pending address, or on a later one that connected at once), or every remaining address failed
+    (NOT_CONNECTED, an i/o error for the caller), or a later address is in progress (still CONNECTING) — in the last two cases
+    decoder and counter are as they were -/
+theorem finishTail_facts (c : CS) :
+    (finishTail c).2.2 = true ∧ (finishTail c).2.1 = (c.dev.conn == 0) ∧ (finishTail c).1.sys = c.sys ∧
+    (finishTail c).1.dev.fromBuf = c.dev.fromBuf ∧ (finishTail c).1.dev.isPipe = c.dev.isPipe ∧
+    (finishTail c).1.dev.fromSize = c.dev.fromSize ∧ (finishTail c).1.dev.toBuf = c.dev.toBuf ∧
+    (finishTail c).1.dev.conn = c.dev.conn ∧ (finishTail c).1.dev.tstate = c.dev.tstate ∧
+    (finishTail c).1.dev.tcmd = c.dev.tcmd ∧ (finishTail c).1.dev.statConnects = c.dev.statConnects := by
+  unfold finishTail
+  split
+  · rename_i h; exact ⟨rfl, h.symm, rfl, rfl, rfl, rfl, rfl, rfl, rfl, rfl, rfl⟩
+  · rename_i h
+    have h' : (c.dev.conn == 0) = false := by simpa using h
+    split
+    · exact ⟨rfl, h'.symm, rfl, rfl, rfl, rfl, rfl, rfl, rfl, rfl, rfl⟩
+    · exact ⟨rfl, h'.symm, rfl, rfl, rfl, rfl, rfl, rfl, rfl, rfl, rfl⟩
+
+theorem readyFinish_facts (c : CS) (h1 : c.dev.conn = 1) :
+    (readyFinish c).2.2 = true ∧
+    (readyFinish c).1.dev.fromBuf = c.dev.fromBuf ∧ (readyFinish c).1.dev.isPipe = c.dev.isPipe ∧
+    (readyFinish c).1.dev.fromSize = c.dev.fromSize ∧ (readyFinish c).1.dev.toBuf = c.dev.toBuf ∧
+    (∃ δ, (readyFinish c).1.sys = c.sys ++ δ ∧ NoIO δ) ∧
+    (((readyFinish c).2.1 = false ∧ (readyFinish c).1.dev.conn = 2 ∧ (readyFinish c).1.dev.tstate = 0 ∧
+        (readyFinish c).1.dev.tcmd = 0 ∧ (readyFinish c).1.dev.statConnects = c.dev.statConnects + 1) ∨
+     ((readyFinish c).2.1 = true ∧ (readyFinish c).1.dev.conn = 0 ∧ (readyFinish c).1.dev.tstate = c.dev.tstate ∧
+        (readyFinish c).1.dev.tcmd = c.dev.tcmd ∧ (readyFinish c).1.dev.statConnects = c.dev.statConnects) ∨
+     ((readyFinish c).2.1 = false ∧ (readyFinish c).1.dev.conn = 1 ∧ (readyFinish c).1.dev.tstate = c.dev.tstate ∧
+        (readyFinish c).1.dev.tcmd = c.dev.tcmd ∧ (readyFinish c).1.dev.statConnects = c.dev.statConnects)) := by
+  unfold readyFinish
+  split
+  · exact ⟨rfl, rfl, rfl, rfl, rfl, ⟨_, rfl, by intro s h; simp at h; subst h; rfl⟩, Or.inr (Or.inr ⟨rfl, h1, rfl, rfl, rfl⟩)⟩
+  · have hF : WalkFrame c (if (finishConnectOne c).2 = true then (finishConnectOne c).1 else finishConnectFail (finishConnectOne c).1) := by
+      split
+      · exact finishConnectOne_frame c
+      · exact (finishConnectOne_frame c).trans (finishConnectFail_frame _)
+    have hT : (TelSame c.dev (if (finishConnectOne c).2 = true then (finishConnectOne c).1 else finishConnectFail (finishConnectOne c).1).dev ∧
+          ((if (finishConnectOne c).2 = true then (finishConnectOne c).1 else finishConnectFail (finishConnectOne c).1).dev.conn = 0 ∨
+           (if (finishConnectOne c).2 = true then (finishConnectOne c).1 else finishConnectFail (finishConnectOne c).1).dev.conn = 1)) ∨
+        TelUp c.dev (if (finishConnectOne c).2 = true then (finishConnectOne c).1 else finishConnectFail (finishConnectOne c).1).dev := by
+      rcases finishConnectOne_tel c with ⟨hb, ⟨t1, t2, t3⟩, t4⟩ | ⟨hb, hu⟩
+      · simp only [hb, Bool.false_eq_true, ↓reduceIte]
+        rcases finishConnectFail_tel (finishConnectOne c).1 with ⟨⟨a1, a2, a3⟩, b⟩ | ⟨b1, b2, b3, b4⟩
+        · left; exact ⟨⟨a1.trans t1, a2.trans t2, a3.trans t3⟩, b.imp id (fun h => by rw [h, t4, h1])⟩
+        · right; exact ⟨b1, b2, b3, by rw [b4, t3]⟩
+      · simp only [hb, ↓reduceIte]; right; exact hu
+    generalize (if (finishConnectOne c).2 = true then (finishConnectOne c).1 else finishConnectFail (finishConnectOne c).1) = c2 at *
+    obtain ⟨f1, f2, f3, f4, f5, f6, f7, f8, f9, f10, f11⟩ := finishTail_facts c2
+    refine ⟨f1, f4.trans hF.dev.fromBuf, f5.trans hF.dev.isPipe, f6.trans hF.dev.fromSize, f7.trans hF.dev.toBuf,
+      by rw [f3]; exact hF.log, ?_⟩
+    rw [f2, f8, f9, f10, f11]
+    rcases hT with ⟨⟨a1, a2, a3⟩, h | h⟩ | ⟨b1, b2, b3, b4⟩
+    · right; left; exact ⟨by simp [h], h, a1, a2, a3⟩
+    · right; right; exact ⟨by simp [h], h, a1, a2, a3⟩
+    · left; exact ⟨by simp [b1], b1, b2, b3, b4⟩
+
 theorem readyWrite_fromBuf (c : CS) :
     (readyWrite c).1.dev.fromBuf = c.dev.fromBuf ∧ (readyWrite c).1.dev.isPipe = c.dev.isPipe ∧
     (readyWrite c).1.dev.fromSize = c.dev.fromSize := by
   unfold readyWrite
   dsimp only
-  rcases finishConnectOne_cases c with ⟨h1, h2⟩ | ⟨h1, h2⟩
-  all_goals
-    generalize finishConnectOne c = r at *
-    obtain ⟨c1, ok⟩ := r
-    simp only at h1 h2
-    subst h1
-    repeat' split
-    all_goals simp_all [enqueueLogin]
+  split
+  · split
+    · rename_i h1
+      have := readyFinish_facts c (by simpa using h1)
+      exact ⟨this.2.1, this.2.2.1, this.2.2.2.1⟩
+    · repeat' split
+      all_goals simp_all
+  · exact ⟨rfl, rfl, rfl⟩
 
 /-- when the read bit is still looked at after the write half, the write half has not touched the connection, the
     decoder or the environment: at most it has written (part of) `toBuf` out -/
@@ -531,29 +598,41 @@ theorem readyWrite_noskip (c : CS) (h : (readyWrite c).2.2 = false) :
     (readyWrite c).1.env = c.env := by
   unfold readyWrite at h ⊢
   dsimp only at h ⊢
-  generalize finishConnectOne c = r at *
-  obtain ⟨c1, ok⟩ := r
-  repeat' split at h
-  all_goals simp_all
+  split
+  · rename_i hf
+    simp only [hf, ↓reduceIte] at h
+    split
+    · rename_i h1
+      simp only [h1, ↓reduceIte] at h
+      rw [(readyFinish_facts c (by simpa using h1)).1] at h; cases h
+    · repeat' split
+      all_goals simp_all
+  · exact ⟨rfl, rfl, rfl, rfl, rfl⟩
 
-/-- when the read bit is skipped, a connection attempt has just been completed: either the connection is up, with
-    the decoder at rest, or it failed -/
+/-- when the read bit is skipped, a connection attempt has just been continued: either a connection is up, with the decoder at
+    rest, or every remaining address failed, or a later address is in progress -/
 theorem readyWrite_skip (c : CS) (h : (readyWrite c).2.2 = true) :
     c.dev.conn = 1 ∧
     (((readyWrite c).2.1 = false ∧ (readyWrite c).1.dev.conn = 2 ∧ (readyWrite c).1.dev.tstate = 0 ∧
         (readyWrite c).1.dev.tcmd = 0 ∧ (readyWrite c).1.dev.statConnects = c.dev.statConnects + 1) ∨
      ((readyWrite c).2.1 = true ∧ (readyWrite c).1.dev.conn = 0 ∧ (readyWrite c).1.dev.tstate = c.dev.tstate ∧
+        (readyWrite c).1.dev.tcmd = c.dev.tcmd ∧ (readyWrite c).1.dev.statConnects = c.dev.statConnects) ∨
+     ((readyWrite c).2.1 = false ∧ (readyWrite c).1.dev.conn = 1 ∧ (readyWrite c).1.dev.tstate = c.dev.tstate ∧
         (readyWrite c).1.dev.tcmd = c.dev.tcmd ∧ (readyWrite c).1.dev.statConnects = c.dev.statConnects)) := by
   unfold readyWrite at h ⊢
   dsimp only at h ⊢
-  rcases finishConnectOne_cases c with ⟨h1, h2⟩ | ⟨h1, h2⟩
-  all_goals
-    generalize finishConnectOne c = r at *
-    obtain ⟨c1, ok⟩ := r
-    simp only at h1 h2
-    subst h1
-    repeat' split at h
-    all_goals simp_all [enqueueLogin]
+  split
+  · rename_i hf
+    simp only [hf, ↓reduceIte] at h
+    split
+    · rename_i h1
+      exact ⟨by simpa using h1, (readyFinish_facts c (by simpa using h1)).2.2.2.2.2.2⟩
+    · rename_i h1
+      simp only [h1, Bool.false_eq_true, ↓reduceIte] at h
+      repeat' split at h
+      all_goals simp_all
+  · rename_i hf
+    simp only [hf, Bool.false_eq_true, ↓reduceIte] at h
 
 /-- the read-side view of a device: transport, decoder state, unconsumed decoded bytes -/
 structure RView where
@@ -620,13 +699,17 @@ theorem handleReady_view (c : CS) :
         · rw [h5]; unfold absorb; split <;> simp [telnetFilter_eq, hn.2.2.2.1]
         · rw [h5, rview_absorb, rview_devClip, hv, hro, hdo]
   · obtain ⟨h1, h2⟩ := readyWrite_skip c hskip
-    rcases h2 with ⟨ha, hb, hc, hd, he⟩ | ⟨ha, hb, hc, hd, he⟩
+    rcases h2 with ⟨ha, hb, hc, hd, he⟩ | ⟨ha, hb, hc, hd, he⟩ | ⟨ha, hb, hc, hd, he⟩
     · right; right
       simp only [ha, Bool.false_eq_true, ↓reduceIte]
       refine ⟨h1, hb, trivial, he, ?_⟩
       unfold rview; rw [hfb.1, hfb.2.1, hc, hd]
     · left
       simp only [ha, ↓reduceIte]
+      refine ⟨?_, he⟩
+      unfold rview; rw [hfb.1, hfb.2.1, hc, hd]
+    · left
+      simp only [ha, Bool.false_eq_true, ↓reduceIte]
       refine ⟨?_, he⟩
       unfold rview; rw [hfb.1, hfb.2.1, hc, hd]
 
@@ -1132,49 +1215,17 @@ theorem disconnectDev_clean (c : CS) :
 /-- a fresh connection: the decoder is at rest (tcp) and there is nothing pending -/
 def FreshIfUp (d : Dev) : Prop := d.conn = 2 → d.isPipe = false → d.tstate = 0 ∧ d.tcmd = 0
 
-theorem connectOne_cases (c : CS) :
-    (connectOne c).1.dev.fromBuf = c.dev.fromBuf ∧ (connectOne c).1.dev.toBuf = c.dev.toBuf ∧
-    (connectOne c).1.dev.isPipe = c.dev.isPipe ∧ (connectOne c).1.dev.curAddr = c.dev.curAddr ∧
-    ((connectOne c).1.dev.conn = c.dev.conn ∨
-      ((connectOne c).1.dev.conn = 2 ∧ (connectOne c).1.dev.tstate = 0 ∧ (connectOne c).1.dev.tcmd = 0)) := by
-  unfold connectOne
-  split
-  · dsimp only
-    split
-    · rename_i fd fr ans ar _ _ _
-      rcases finishConnectOne_cases ({ c with env := { c.env with sockets := fr, connects := ar }, sys := c.sys ++ [Sys.socket fd, Sys.connect ans], dev := { c.dev with fd := some fd } } : CS) with ⟨h1, h2⟩ | ⟨h1, h2⟩
-      all_goals
-        generalize finishConnectOne _ = r at *
-        obtain ⟨c1, ok⟩ := r
-        simp only at h1 h2
-        subst h1
-        simp [h2]
-    · split <;> simp
-  · simp
-
 theorem tcpConnect_cases (c : CS) :
     (tcpConnect c).1.dev.fromBuf = c.dev.fromBuf ∧ (tcpConnect c).1.dev.toBuf = c.dev.toBuf ∧
     (tcpConnect c).1.dev.isPipe = c.dev.isPipe ∧
     ((tcpConnect c).1.dev.conn = 2 → c.dev.conn = 0 → (tcpConnect c).1.dev.tstate = 0 ∧ (tcpConnect c).1.dev.tcmd = 0) := by
-  unfold tcpConnect
-  split
-  · simp_all
-  split
-  · refine ⟨rfl, rfl, rfl, ?_⟩; intro h2 h0; simp_all
-  dsimp only
-  simp only [↓reduceIte]
-  have h := connectOne_cases { c with dev := { c.dev with conn := 1, curAddr := true } }
-  generalize connectOne { c with dev := { c.dev with conn := 1, curAddr := true } } = r at *
-  obtain ⟨c1, ok⟩ := r
-  simp only at h
-  obtain ⟨ha, hb, hc, hd, he⟩ := h
-  cases ok
-  · simp [ha, hb, hc]
-  · simp only [↓reduceIte, hd, Bool.not_true, Bool.false_eq_true, ha, hb, hc, true_and]
-    intro h2 _
-    rcases he with he | he
-    · rw [he] at h2; simp at h2
-    · exact he.2
+  have hF := tcpConnect_frame c
+  refine ⟨hF.dev.fromBuf, hF.dev.toBuf, hF.dev.isPipe, fun h2 h0 => ?_⟩
+  rcases tcpConnect_tel c with ⟨_, h | h | h⟩ | ⟨_, b2, b3, _⟩
+  · omega
+  · omega
+  · omega
+  · exact ⟨b2, b3⟩
 
 theorem pipeConnect_cases (c : CS) :
     (pipeConnect c).1.dev.fromBuf = c.dev.fromBuf ∧ (pipeConnect c).1.dev.toBuf = c.dev.toBuf ∧
@@ -1284,9 +1335,10 @@ theorem handleReady_up (c : CS) (h : c.dev.conn ≠ 2) (h2 : (handleReady c).1.d
   · obtain ⟨_, hh⟩ := readyWrite_skip c hskip
     have hfb := (readyWrite_fromBuf c).1
     simp only [hskip, ↓reduceIte] at h2 ⊢
-    rcases hh with ⟨ha, hb, hc, hd, he⟩ | ⟨ha, hb, _⟩
+    rcases hh with ⟨ha, hb, hc, hd, he⟩ | ⟨ha, hb, _⟩ | ⟨ha, hb, _⟩
     · simp only [ha, Bool.false_eq_true, ↓reduceIte]; exact ⟨hc, hd, hfb⟩
     · simp only [ha, ↓reduceIte] at h2; omega
+    · simp only [ha, Bool.false_eq_true, ↓reduceIte] at h2; omega
 
 /-! ## 5. the write side -/
 
@@ -1329,25 +1381,34 @@ theorem devWritten_append (l1 l2 : List Sys) : devWritten (l1 ++ l2) = devWritte
     | write b ok => cases ok <;> simp [devWritten, ih]
     | _ => simp [devWritten, ih]
 
+theorem devWritten_noIO (δ : List Sys) (h : NoIO δ) : devWritten δ = [] := by
+  induction δ with
+  | nil => rfl
+  | cons x r ih =>
+    have hx := h x (by simp)
+    have hr : NoIO r := fun s hs => h s (by simp [hs])
+    cases x <;> simp_all [devWritten, Sys.isIO]
+
+/-- finishing a connect writes nothing and queues nothing -/
+theorem readyFinish_conserve (c : CS) (h1 : c.dev.conn = 1) :
+    devWritten (readyFinish c).1.sys = devWritten c.sys ∧ (readyFinish c).1.dev.toBuf = c.dev.toBuf := by
+  obtain ⟨_, _, _, _, h5, ⟨δ, h6, h7⟩, _⟩ := readyFinish_facts c h1
+  exact ⟨by rw [h6, devWritten_append, devWritten_noIO δ h7, List.append_nil], h5⟩
+
 /-- the write half: what has been written successfully so far followed by what is still queued does not change —
     a successful `write` moves all of `toBuf` to the descriptor, a failed one moves nothing -/
 theorem readyWrite_conserve (c : CS) :
     devWritten (readyWrite c).1.sys ++ (readyWrite c).1.dev.toBuf = devWritten c.sys ++ c.dev.toBuf := by
   unfold readyWrite
   dsimp only
-  rcases finishConnectOne_cases c with ⟨h1, h2⟩ | ⟨h1, h2⟩
-  all_goals
-    have hsys : devWritten (finishConnectOne c).1.sys = devWritten c.sys := by
-      unfold finishConnectOne
-      split
-      · split <;> simp [devWritten_append, devWritten]
-      · simp [devWritten_append, devWritten]
-    generalize finishConnectOne c = r at *
-    obtain ⟨c1, ok⟩ := r
-    simp only at h1 h2 hsys
-    subst h1
-    repeat' split
-    all_goals simp_all [enqueueLogin, devWritten_append, devWritten]
+  split
+  · split
+    · rename_i h1
+      obtain ⟨e1, e2⟩ := readyFinish_conserve c (by simpa using h1)
+      rw [e1, e2]
+    · repeat' split
+      all_goals simp_all [devWritten_append, devWritten]
+  · rfl
 
 /-- the option replies the daemon queues when the descriptor delivered `bs` -/
 def repliesOf (d : Dev) (bs : Bytes) : Bytes := if d.isPipe then [] else (decodeFrom d.tstate d.tcmd bs).replies
@@ -1364,21 +1425,15 @@ theorem readyWrite_split (c : CS) :
   have hlog : ∃ wr, devWritten (readyWrite c).1.sys = devWritten c.sys ++ wr := by
     unfold readyWrite
     dsimp only
-    rcases finishConnectOne_cases c with ⟨h1, h2⟩ | ⟨h1, h2⟩
-    all_goals
-      have hsys : devWritten (finishConnectOne c).1.sys = devWritten c.sys := by
-        unfold finishConnectOne
-        split
-        · split <;> simp [devWritten_append, devWritten]
-        · simp [devWritten_append, devWritten]
-      generalize finishConnectOne c = r at *
-      obtain ⟨c1, ok⟩ := r
-      simp only at h1 h2 hsys
-      subst h1
-      repeat' split
-      all_goals first
-        | (refine ⟨[], ?_⟩; simp_all [enqueueLogin, devWritten_append, devWritten]; done)
-        | (refine ⟨c.dev.toBuf.take c.env.wcap, ?_⟩; simp_all [enqueueLogin, devWritten_append, devWritten]; done)
+    split
+    · split
+      · rename_i h1
+        exact ⟨[], by rw [(readyFinish_conserve c (by simpa using h1)).1, List.append_nil]⟩
+      · repeat' split
+        all_goals first
+          | (refine ⟨[], ?_⟩; simp_all [devWritten_append, devWritten]; done)
+          | (refine ⟨c.dev.toBuf.take c.env.wcap, ?_⟩; simp_all [devWritten_append, devWritten]; done)
+    · exact ⟨[], by simp⟩
   obtain ⟨wr, hwr⟩ := hlog
   refine ⟨wr, hwr, ?_⟩
   rw [hwr, List.append_assoc] at hsum
